@@ -551,3 +551,6 @@ _explore_without_pa = explore
 def explore(rep, br, tier, seed):
     _explore_without_pa(rep, br, tier, seed)
     pa_corr.explore_pa(rep, tier, seed)
+
+# session-7 addition to the claimed level (MANIFEST text only)
+LEVEL_TEXT = LEVEL_TEXT + " " + 'Whole-program additions: Props/R_reloc.v (R_relocation_bytes: byte-level relocation law on the reference assembler) is an obligation of this check; a loaded-image stream judges statement placement against the load address the written bin / BK-wav containers state, at odd and even bases.'
